@@ -846,7 +846,12 @@ fn jaeger_once(st: &mut St, end: &mut JaegerEnd, batch: Vec<SpanRecord>, split_r
     let fits: Vec<bool> = expected.iter().map(|s| e_batch(SERVICE, std::slice::from_ref(s)).len() < 8000).collect();
     let want: Vec<&JSpan> = expected.iter().zip(&fits).filter(|(_, f)| **f).map(|(s, _)| s).collect();
     let t = Instant::now();
-    rep.report(batch.clone());
+    if let Err(e) = std::panic::catch_unwind(std::panic::AssertUnwindSafe(|| rep.report(batch.clone()))) {
+        let msg = e.downcast_ref::<String>().cloned().or_else(|| e.downcast_ref::<&str>().map(|s| s.to_string())).unwrap_or_default();
+        st.viol("report-panicked", format!("{}: report() of {} records panicked: {}", label, batch.len(), msg));
+        st.evals += 1;
+        return None;
+    }
     let took = t.elapsed();
     if took > Duration::from_secs(20) {
         st.viol("report-too-slow", format!("{}: report() of {} records took {:?}", label, batch.len(), took));
@@ -1524,7 +1529,25 @@ fn run_otel(st: &mut St, r: &mut Rng, n: usize, deadline: Instant) {
     }
 }
 
+/// An application normally has a logger installed: the `log` macros of the reporters evaluate
+/// their arguments only then. This one formats every message (and counts them).
+struct CountingLogger;
+static LOGGED: std::sync::atomic::AtomicU64 = std::sync::atomic::AtomicU64::new(0);
+impl log::Log for CountingLogger {
+    fn enabled(&self, _: &log::Metadata) -> bool {
+        true
+    }
+    fn log(&self, record: &log::Record) {
+        let s = format!("{}", record.args());
+        LOGGED.fetch_add(1 + (s.len() as u64 & 0), Ordering::Relaxed);
+    }
+    fn flush(&self) {}
+}
+static LOGGER: CountingLogger = CountingLogger;
+
 fn main() {
+    let _ = log::set_logger(&LOGGER);
+    log::set_max_level(log::LevelFilter::Trace);
     let v: Vec<String> = std::env::args().collect();
     let mut seed = 1u64;
     let mut out = "/dev/stdout".to_string();
